@@ -189,6 +189,40 @@ class DFA:
                 seen.add(w); out.append(w)
         return out
 
+    def pumped_words(self, lengths, per_state=2):
+        """accepted words u v^n w with v a shortest cycle through a live edge (S, sym): the same group repeated until the word
+        has about the requested length. One word per (distinct cycle, length)"""
+        out = []
+        cycles = set()
+        for S, sym, T in self.edges():
+            # shortest path back from T to S
+            seen = {T}; todo = collections.deque([(T, ())]); back = None
+            while todo:
+                X, w = todo.popleft()
+                if X == S:
+                    back = w
+                    break
+                for a in self.alphabet:
+                    Y = self.trans.get((X, a))
+                    if Y is not None and Y in self.live and Y not in seen:
+                        seen.add(Y); todo.append((Y, w + (a,)))
+            if back is None:
+                continue
+            v = (sym,) + back
+            # canonical rotation so the same cycle is taken once
+            key = min(v[i:] + v[:i] for i in range(len(v)))
+            if key in cycles:
+                continue
+            cycles.add(key)
+            pre = self.shortest_to(S)
+            suf = self.shortest_from(S)
+            if pre is None or suf is None:
+                continue
+            for n in lengths:
+                k = max(2, -(-n // len(v)))
+                out.append(pre + v * k + suf)
+        return out
+
     def random_word(self, rnd, maxlen=40, stop=0.15, pump=True):
         """random accepted walk; with pump, prefers to stay in loops"""
         S = self.start; w = []
